@@ -3,8 +3,12 @@
 P=$1; shift
 cd /repo && git apply --check $P || { echo "patch does not apply"; exit 2; }
 git -C /repo apply $P
+# evidence written while /repo is modified must not survive: keep the committed files aside
+rm -rf /tmp/evidence_keep && cp -r /verif/evidence /tmp/evidence_keep
 for c in "$@"; do
   cd /verif && timeout 1500 ./check $c ${TIER:-quick} > /tmp/seedrun_$c.log 2>&1; rc=$?
   echo "$c exit=$rc $(grep -c '^VIOLATION' /tmp/seedrun_$c.log) violation line(s); $(grep 'violation \[' /tmp/seedrun_$c.log | sed 's/.*violation \[\([^]]*\)\].*/\1/' | sort | uniq -c | head -4 | tr '\n' ';')"
 done
 git -C /repo checkout -- .
+rm -rf /verif/evidence && mv /tmp/evidence_keep /verif/evidence
+
